@@ -230,7 +230,6 @@ func rangesWhole(idx ssa.Value, x ssa.Value) bool {
 	return false
 }
 
-
 // closureWritesParam: a function literal inside fn (a deferred scrubber, a helper closure) stores through a
 // reference-like parameter of fn that it captured.
 func closureWritesParam(p *Prog, fn *ssa.Function) string {
